@@ -41,7 +41,8 @@ ASSUMPTIONS = ["the reclamation bound is circuit_timeout + (hops + 2) x (max_tim
                "crashed nodes are not inspected (their state died with them)"]
 REACH = ["dropped:destroy", "dropped:CreatedPayload", "dropped:ExtendedPayload", "dropped:ExtendPayload", "dropped:CreatePayload", "dropped:relayed_handshake",
          "reclaimed_by_timeout_only", "exit_transports_closed", "originator_crash", "join_refused_at_limit",
-         "relay_early_over_budget_dropped", "exit_wants_unbuildable_tunnels", "chatty_outside_peer", "phase:half", "phase:ready", "phase:transfer"]
+         "relay_early_over_budget_dropped", "exit_wants_unbuildable_tunnels", "chatty_outside_peer", "phase:half", "phase:ready", "phase:transfer",
+         "phase:first_packet", "teardown_right_behind_first_packet"]
 
 DESTROY_ID = 8
 CONTROL = ("CreatePayload", "CreatedPayload", "ExtendPayload", "ExtendedPayload")
@@ -89,6 +90,13 @@ def cases(tier: str, base_seed: int):  # noqa: ANN201
                     for drops in ([], *[[d] for d in destroys], destroys):
                         yield {"seed": base_seed, "knobs": {"lat_jit": 0.0}, "cfg": cfg, "drops": [list(d) for d in drops],
                                "extra": extra}
+    # the first data packet chased by the teardown, with and without the removal grace period
+    for hops in (1, 2):
+        for who in ("originator", "exit"):
+            for rtd in (0, 5):
+                for gap in (0.0, 1e-6, 1e-4, 2e-3, 0.05):
+                    yield {"seed": base_seed, "knobs": {"lat_jit": 0.0, "sock_open_yields": int(gap * 1e6) % 3},
+                           "cfg": {"hops": hops, "who": who, "phase": "first_packet", "rtd": rtd, "gap": gap}, "drops": [], "extra": []}
     # interleave configurations so that a budget-limited run covers all of them
     streams = []
     for cfg, prof in plan:
@@ -112,6 +120,9 @@ def cases(tier: str, base_seed: int):  # noqa: ANN201
         seed = base_seed + 1 + i
         rng = random.Random(f"c09/{seed}")
         cfg = rng.choice(cfgs)
+        if rng.random() < 0.15:
+            cfg = {"hops": rng.choice([1, 2, 3]), "who": rng.choice(["originator", "exit", "crash"]), "phase": "first_packet",
+                   "rtd": rng.choice([0, 0, 1, 5]), "gap": rng.choice([0.0, 1e-6, 1e-5, 1e-4, 1e-3, 0.02])}
         extra = []
         for _ in range(rng.choice([0, 1, 2])):
             extra.append(rng.choice([
@@ -140,6 +151,8 @@ def execute(case: dict) -> dict:  # noqa: C901, PLR0915
     settings = {}
     if limit is not None:
         settings["max_joined_circuits"] = limit
+    if cfg.get("rtd") is not None:
+        settings["remove_tunnel_delay"] = cfg["rtd"]      # a configuration knob of the library (its own tests run with 0)
     lonely_exit = any(e["kind"] == "exit_wants_tunnels" for e in extra)
     # (with "exit_wants_tunnels" the world has a single exit node, which itself asks for tunnels it can never build)
     tw = TunnelWorld(c, n=hops + 3, exits=(hops + 1,) if lonely_exit else (hops + 1, hops + 2), settings=settings)
@@ -260,6 +273,13 @@ def execute(case: dict) -> dict:  # noqa: C901, PLR0915
                         break
             sender = o.call(asyncio.ensure_future, pump())
             await asyncio.sleep(1.5)
+        if phase == "first_packet" and circ.state == "READY":
+            # the circuit's very first data packet (it makes the exit open its outside sockets) is followed by the teardown almost
+            # at once: `gap` seconds later (0 = same instant, the destroy travels right behind the data)
+            world.probe("teardown_right_behind_first_packet")
+            o.call(o.ov.send_data, circ.hop.address, circ.circuit_id, UDPv4Address(*w.address), ("0.0.0.0", 0), b"d" + b"first" + b"e")
+            if cfg.get("gap"):
+                await asyncio.sleep(cfg["gap"])
         chatty = next((e for e in extra if e["kind"] == "chatty_outside"), None)
         if chatty is not None and w.received:
             # the outside world keeps talking to the exit's socket after the circuit is gone
